@@ -49,6 +49,8 @@ type npmCase struct {
 	Doc     jv          `json:"doc"`
 	Layout  npmLayout   `json:"layout"`
 	Updates []npmUpdate `json:"updates"`
+	OutTree string      `json:"out_tree,omitempty"` // see c13Out
+	OutName string      `json:"out_name,omitempty"`
 }
 
 var npmSections = []string{"dependencies", "devDependencies", "optionalDependencies"}
@@ -214,6 +216,15 @@ func (w *workspace) output(rel string) ([]byte, error) {
 	return b, nil
 }
 
+// rel is the text of an error with the (per-process) workspace root cut out, so that the
+// verdict of a case reads the same in every run.
+func (w *workspace) rel(err error) string {
+	if err == nil {
+		return ""
+	}
+	return strings.ReplaceAll(err.Error(), w.root+string(filepath.Separator), "")
+}
+
 func (w *workspace) cleanup() {
 	if w != nil {
 		_ = os.RemoveAll(w.root)
@@ -341,8 +352,17 @@ func propC13Npm(c *npmCase) (ev.Outcome, error) {
 		apps = append(apps, a)
 	}
 
-	out := filepath.Join(dir, "out", "package.json")
-	werr := verifhooks.WriteManifest(resolve.NPM, fsys, "package.json", ups, out)
+	place := c13Out{Tree: c.OutTree, Name: c.OutName}
+	outTree, outRel, err := place.resolve("package.json")
+	if err != nil {
+		return o, fmt.Errorf("bad case: %v", err)
+	}
+	outFile := outTree + "/" + outRel
+	// whatever a case leaves at the requested place, or under the manifest's own name beside
+	// it, is removed before the next one
+	ws.files[outFile] = true
+	ws.files[outTree+"/package.json"] = true
+	werr := verifhooks.WriteManifest(resolve.NPM, fsys, "package.json", ups, filepath.Join(dir, filepath.FromSlash(outFile)))
 	if werr != nil {
 		if len(ups) == 0 {
 			return o, fmt.Errorf("Write with no updates fails: %v", werr)
@@ -350,9 +370,15 @@ func propC13Npm(c *npmCase) (ev.Outcome, error) {
 		o.Classes = append(o.Classes, "npm_write_error")
 		return o, nil
 	}
-	got, err := ws.output("out/package.json")
+	got, err := ws.output(outFile)
 	if err != nil {
-		return o, fmt.Errorf("Write returned nil but the output file is missing: %v", err)
+		return o, fmt.Errorf("Write returned nil but there is no file at the output path %s: %s", outFile, ws.rel(err))
+	}
+	// a Write to another path leaves the manifest that was read alone
+	if outFile != "in/package.json" {
+		if now, err := ws.output("in/package.json"); err != nil || !bytes.Equal(now, in) {
+			return o, fmt.Errorf("Write to %s modified the original in/package.json (%d updates, err=%v): %s", outFile, len(ups), err, firstDiff(in, now))
+		}
 	}
 
 	// (3) byte-exact preservation. Entries of an updated key whose literal equals the
@@ -405,9 +431,9 @@ func propC13Npm(c *npmCase) (ev.Outcome, error) {
 	}
 
 	// (2)+(4) re-reading yields the original requirements with the new versions.
-	reqsOut, err := verifhooks.ReadManifest(resolve.NPM, scalibrfs.DirFS(filepath.Join(dir, "out")), "package.json")
+	reqsOut, err := verifhooks.ReadManifest(resolve.NPM, scalibrfs.DirFS(filepath.Join(dir, filepath.FromSlash(outTree))), outRel)
 	if err != nil {
-		return o, fmt.Errorf("written package.json is not readable: %v", err)
+		return o, fmt.Errorf("written package.json (%s) is not readable: %v", outFile, err)
 	}
 	exp := append([]verifhooks.Requirement(nil), reqsIn...)
 	for _, a := range apps {
@@ -420,6 +446,7 @@ func propC13Npm(c *npmCase) (ev.Outcome, error) {
 	}
 
 	o.NonTrivial = len(ups) > 0
+	o.Classes = append(o.Classes, "npm_"+place.class())
 	if len(ups) == 0 {
 		o.Classes = append(o.Classes, "npm_no_updates")
 	}
@@ -701,5 +728,7 @@ func genNpmCase(t *rapid.T, col *ev.Collector) *npmCase {
 		}
 		c.Updates = append(c.Updates, npmUpdate{Key: u.key, To: to})
 	}
+	out := genC13Out(t, c13NpmOutNames)
+	c.OutTree, c.OutName = out.Tree, out.Name
 	return c
 }
